@@ -777,6 +777,19 @@ func (u *Unit) execBody(fn *ssa.Function, st0 *State, top bool) (*State, []Term)
 		if con != nil {
 			l.spec = con.Loops[l.ordinal]
 		}
+		// compiler-generated range index: implicit invariant rangeindex >= -1
+		if l.spec != nil && !l.spec.autoRange {
+			for _, ins := range l.header.Instrs {
+				if p, ok := ins.(*ssa.Phi); ok && p.Comment == "rangeindex" {
+					cp := *l.spec
+					cp.Invariants = append([]Clause{{Label: "autoRangeIndex", Expr: "rangeindex >= -1"}}, cp.Invariants...)
+					cp.autoRange = true
+					l.spec = &cp
+					con.Loops[l.ordinal] = l.spec
+					break
+				}
+			}
+		}
 		if l.spec != nil && l.spec.Bound > 0 {
 			l.bound = l.spec.Bound
 		} else if l.spec == nil || len(l.spec.Invariants) == 0 && !l.spec.Cut {
